@@ -6,7 +6,7 @@ EXTENDS Integers, Sequences
 P3 == {"A", "B", "C"}
 Pfx2 == {"x1", "x2"}
 
-Info(k, as, i) == [kind |-> k, as |-> as, idx |-> i]
+Info(k, as, i) == [kind |-> k, as |-> as, idx |-> i, sendmax |-> 0]
 
 PI_ebgp3 == [p \in P3 |-> CASE p = "A" -> Info("ebgp", 65001, 0)
                             [] p = "B" -> Info("ebgp", 65002, 1)
@@ -17,6 +17,11 @@ PI_mixed == [p \in P3 |-> CASE p = "A" -> Info("ebgp", 65001, 0)
 PI_rr    == [p \in P3 |-> CASE p = "A" -> Info("rrc",  65000, 0)
                             [] p = "B" -> Info("ibgp", 65000, 1)
                             [] p = "C" -> Info("ebgp", 65003, 2)]
+
+(* C is an ADD-PATH receiver: the speaker sends it up to send-max 2 paths per prefix *)
+PI_addpath == [p \in P3 |-> CASE p = "A" -> Info("ebgp", 65001, 0)
+                              [] p = "B" -> Info("ebgp", 65002, 1)
+                              [] p = "C" -> [Info("ebgp", 65003, 2) EXCEPT !.sendmax = 2]]
 
 (* variant codes of a neighbour's routes (unique AS_PATH lengths across sources, see Speaker) *)
 VarCodes == 0..5
